@@ -225,8 +225,20 @@ def run(ctx):
         a1 = [bsweep.synth(eng, ty, "first" + loc)[-1] if not ty.startswith("std::option::Option<u32>") and not ty.startswith("Option<u32>") else sym.Adt("Option", "None", [])
               for loc, ty in fn.args[1:]]
         b0 = base.make_state((0, 0, 0, 0), None, None, nid, fields)
+        # the module already holds a constant (an instruction WITH a result type) before the declarations: types and values interleave
+        tgv = fields["Module"].index("types_global_values")
+        cclass = sym.Adt("grammar::Instruction", None, [sym.StrV("Constant"), z3.BitVecVal(43, 32), sym.Sym("c", "&[Capability]"), sym.Sym("e", "&[&str]"), sym.Sym("o", "&[LogicalOperand]")])
+        prefix = [sym.Adt("constructs::Instruction", None, [sym.Ref(("h", "cclass"), ()), base.some(z3.BitVec("c_rt", 32)), base.some(z3.BitVec("c_id", 32)),
+                                                            base.vec([sym.Adt("dr::constructs::Operand", "LiteralBit32", [z3.BitVec("c_v", 32)])])])]
+        P_ = len(prefix)
+        mod0 = b0.fields[bidx["module"]]
+        mf0 = list(mod0.fields)
+        mf0[tgv] = base.vec(prefix)
+        bf0 = list(b0.fields)
+        bf0[bidx["module"]] = sym.Adt(mod0.ty, None, mf0)
+        b0 = sym.Adt(b0.ty, None, bf0)
         try:
-            r1 = [r for r in eng.run(fn, [sym.Ref(("h", "b"), (), True)] + a1, mem={("h", "b"): b0}, pc=list(pre)) if r.status == "return"]
+            r1 = [r for r in eng.run(fn, [sym.Ref(("h", "b"), (), True)] + a1, mem={("h", "b"): b0, ("h", "cclass"): cclass}, pc=list(pre)) if r.status == "return"]
         except mir.Unsupported as ex:
             ctx.ob("types/%s/encodable" % name, None, str(ex)[:300])
             continue
@@ -234,10 +246,9 @@ def run(ctx):
             ctx.ob("types/%s/first-request" % name, None, "%d paths" % len(r1))
             continue
         b1 = r1[0].mem[("h", "b")]
-        tgv = fields["Module"].index("types_global_values")
         n_after_first = len(b1.fields[bidx["module"]].fields[tgv].items)
         st, m = q.check(r1[0].pc + [z3.Or(r1[0].value != nid, b1.fields[bidx["next_id"]] != nid + 1)], "first-type-request")
-        ok1 = st == "unsat" and n_after_first == 1
+        ok1 = st == "unsat" and n_after_first == P_ + 1
         ctx.ob("types/%s/first-request-appends-fresh" % name, True if ok1 else False)
         if not ok1:
             ctx.violation("builder-types/%s/first-request" % name, "%s on an empty module does not append one declaration with the fresh id" % name, {"method": name})
@@ -268,15 +279,15 @@ def run(ctx):
                 nxt = b2.fields[bidx["next_id"]]
                 # struct_eq on opaque operands introduces eq(...) atoms with the same naming; tie them to same_req through the path condition
                 if explicit:
-                    cond = z3.Or(r.value != w, nxt != nid + 1) if n2 == 2 else z3.BoolVal(True)
-                    if n2 == 2:
+                    cond = z3.Or(r.value != w, nxt != nid + 1) if n2 == P_ + 2 else z3.BoolVal(True)
+                    if n2 == P_ + 2:
                         last = b2.fields[bidx["module"]].fields[tgv].items[-1]
                         rid = last.fields[2]
                         cond = z3.Or(cond, rid.fields[0] != w) if rid.variant == "Some" else z3.BoolVal(True)
                     st, m = q.check(r.pc + [cond], "explicit-type-request")
                     good = st == "unsat"
                     what = "a request with an explicit id must append a declaration carrying that id"
-                elif n2 == 1:
+                elif n2 == P_ + 1:
                     st, m = q.check(r.pc + [z3.Or(r.value != nid, nxt != nid + 1, z3.Not(same_req))], "dedup-type-request")
                     good = st == "unsat"
                     what = "nothing appended: must be an identical request and return the earlier id without touching the counter"
@@ -291,15 +302,31 @@ def run(ctx):
                     st, m = q.check(r.pc + [c], "fresh-type-request")
                     good = st == "unsat"
                     what = "appended: must be a different request, carry the fresh id and advance the counter by one"
-                tag = "types/%s/%s/%s" % (name, "explicit" if explicit else "implicit", "appended" if n2 == 2 else "deduplicated")
+                tag = "types/%s/%s/%s" % (name, "explicit" if explicit else "implicit", "appended" if n2 == P_ + 2 else "deduplicated")
                 if good:
                     ctx.ob(tag, True)
                 else:
                     ctx.ob(tag, False if st == "sat" else None, what)
                     if st == "sat":
-                        ctx.violation("builder-types/%s/%s" % (name, "explicit-id" if explicit else ("dedup" if n2 == 1 else "fresh")),
-                                      "Builder::%s, second request (%s id) on a module holding one declaration: %s" % (name, "explicit" if explicit else "implicit", what),
-                                      {"method": name})
+                        role = "builder-types/%s/%s" % (name, "explicit-id" if explicit else ("dedup" if n2 == P_ + 1 else "fresh"))
+                        msg = "Builder::%s, second request (%s id) on a module holding a constant and one declaration: %s" % (name, "explicit" if explicit else "implicit", what)
+                        if explicit:
+                            real = rp.ask("builder_ids %s 0 50 explicit" % name)
+                            mid_ = re.search(r"id:(\d+)", str(real.get("result", "")))
+                            if "error" in real or ("panic" not in real and real.get("next_id_after") == real.get("next_id_before") and mid_ and int(mid_.group(1)) != 50):
+                                ctx.inconclusive.append((tag, "model-only deviation (%s); the compiled crate answers %s" % (what, real)))
+                            else:
+                                ctx.violation(role, msg + "; on the compiled crate: %s" % real, {"cmd": "builder_ids %s 0 50 explicit" % name, "real": real})
+                        else:
+                            # native confirmation: the identical implicit request twice must give one declaration and the same id
+                            real = rp.ask("builder_type_twice %s" % name)
+                            conforming = "error" in real or ("panic" not in real and real.get("first") == real.get("second") and real.get("n1") == real.get("n0", 0) + 1 and real.get("n2") == real.get("n1"))
+                            if name.endswith("_id") and "error" not in real and "panic" not in real:
+                                conforming = real.get("first") == real.get("second") and real.get("n2") == real.get("n1")
+                            if conforming:
+                                ctx.inconclusive.append((tag, "model-only deviation (%s); the compiled crate answers %s" % (what, real)))
+                            else:
+                                ctx.violation(role, msg + "; on the compiled crate the same implicit request made twice gives %s" % real, {"cmd": "builder_type_twice %s" % name, "real": real})
     rp.close()
     # ---- module()/new()/new_from_module: compiled code through Kani
     res = kani.run_many(["k_builder_module"], cap_s=300)
